@@ -70,6 +70,13 @@ def is_external_opaque(n: ast.Call) -> bool:
     return False
 
 
+def external_kind(n: ast.Call) -> str:
+    f = n.func
+    if isinstance(f, ast.Attribute) and isinstance(f.value, ast.Name) and f.value.id == "time":
+        return "real" if f.attr == "time" else "int"
+    return "opaque"
+
+
 def is_dropped_unit(unit) -> bool:
     return unit.node.name in DROPPED_UNIT_NAMES
 
